@@ -158,7 +158,8 @@ class Slot:
 
 def X(**kw):
     """An expectation: names must be present (per section), extra names allowed, call records."""
-    d = {"names": {}, "extra": {}, "calls": [], "res_names": None, "res_extra": {}, "res_calls": None, "keys": [], "nodiag": []}
+    d = {"names": {}, "extra": {}, "calls": [], "res_names": None, "res_extra": {}, "res_calls": None, "keys": [], "nodiag": [],
+         "xattr_full": None}
     d.update(kw)
     return d
 
@@ -228,7 +229,8 @@ def sl_xattr(sec, suffix):
     def f(S, B, e):
         full = S + suffix
         return X(names={sec: [full], **({"gets": [S]} if sec != "gets" else {"gets": [full, S]})},
-                 extra={"gets": _dotted_prefixes(full), sec: [full] + (_dotted_prefixes(full) if sec == "gets" else [])})
+                 extra={"gets": _dotted_prefixes(full), sec: [full] + (_dotted_prefixes(full) if sec == "gets" else [])},
+                 xattr_full=full)
     return f
 
 
@@ -517,11 +519,50 @@ def call_on_call(node):
     return isinstance(node, ast.Call) and isinstance(node.func, ast.Call)
 
 
+def default_base(name):
+    """What `Name(name)` derives as its basename when none is given, as a function of the DOCUMENTED
+    name only: every trailing '()' dropped, '*' dropped, first dotted component."""
+    n = name
+    while n.endswith("()"):
+        n = n[:-2]
+    return n.replace("*", "").split(".")[0]
+
+
+def xattr_role(p, n):
+    """Which of the names a getattr-family slot records the documented name `n` is: 'full' — the
+    accessed name O.k itself (the object's spelling plus the literal names; `get_dynamic_name` gives it
+    the object's base) — or 'lhs' — one of its proper dotted prefixes (`iter_lhs_names`, reported as
+    `Name(prefix)` with the default basename)."""
+    full = p.want.get("xattr_full")
+    if full is None:
+        return None
+    if n == full:
+        return "full"
+    if n in _dotted_prefixes(full):
+        return "lhs"
+    return "other"
+
+
 def _basename_tag(p, n):
+    """Class of a documented name whose BASE is what deviates (wrong in the IR / not substituted in a
+    caller). Computed from the probe and the documented name alone. For the getattr family:
+      * 'xattr-lhs'  — n is a proper dotted prefix of the accessed name AND the default basename of that
+        prefix keeps brackets (`x[]`, `x[].a`, `x().m`; NOT `x()`, `x.a[]`): the pinned defect;
+      * 'xattr-full' — n is the accessed name itself and its first dotted component has brackets
+        (`x[].k`, `x().m.k`): correct on the pinned tree (bracket-stripping in get_dynamic_name);
+      * anything else of the family (a prefix whose default basename is the variable, a first component
+        without brackets) gets no tag: the per-slot signature."""
     if p.slot.id == "sorted" and n != p.S:
         return ":unbound-name-basename-is-argument-spelling"
+    if p.slot.id in XATTR_SLOTS:
+        role = xattr_role(p, n)
+        if role == "lhs" and default_base(n) != p.B:
+            return ":keeps-brackets:xattr-lhs"
+        if role == "full" and first_component_bracketed(p):
+            return ":keeps-brackets:xattr-full"
+        return ""
     if first_component_bracketed(p):
-        return ":keeps-brackets:" + ("xattr-lhs" if p.slot.id in XATTR_SLOTS else "call-receiver")
+        return ":keeps-brackets:call-receiver"
     return ""
 
 
@@ -584,19 +625,24 @@ def judge_ir(p, im):
 
 
 def judge_doc(p, ent, base_rename=None):
-    """Oracle on one function's entry of the printed results document."""
+    """Oracle on one function's entry of the printed results document. With `base_rename` the entry is
+    that of a CALLER which passes an argument spelled `base_rename` (`s2`, `s2.rows`, `s2[]`) for the
+    probe's variable: every documented name is then the documented spelling of the probe's expression
+    with the argument's spelling in place of the parameter (the README table is compositional)."""
     out = []
     ren = (lambda n: n) if base_rename is None else (lambda n: _rename(n, p.base_var, base_rename))
     S, B, w = p.S, p.B, p.want
     if base_rename is not None and B != p.base_var:
         return out          # a stand-in base is not an argument: nothing is substituted
     Bn = ren(B)
+    root = root_of(Bn)      # the caller's own variable
+    own = set() if base_rename is None else set(_own_prefixes(base_rename))     # the argument expression itself
     spelled = {ren(s) for s, _ in p.pairs}
     must = w["res_names"] if w["res_names"] is not None else w["names"]
     derived = {sec: set(v) for sec, v in must.items()}
     if base_rename is not None:
-        # through a followed import only the names the function records itself need ONE level of
-        # substitution; names derived through a further call need two (C03's subject, see its findings)
+        # through a call only the names the function records itself need ONE level of substitution;
+        # names derived through a further call need two (C03's subject, see its findings)
         must = w["names"]
     for sec in ("gets", "sets", "dels"):
         have = set(ent.get(sec, []))
@@ -604,11 +650,12 @@ def judge_doc(p, ent, base_rename=None):
             if ren(n) not in have:
                 tag = _basename_tag(p, n) if base_rename is not None else ""
                 kind = ("not-substituted" + tag) if tag else "missing-documented-name"
-                out.append((kind, {"section": sec, "want": ren(n), "have_rooted": sorted(x for x in have if root_of(x) == Bn)}))
+                out.append((kind, {"section": sec, "want": ren(n), "have_rooted": sorted(x for x in have if root_of(x) == root),
+                                   "have_rooted_at_parameter": sorted(x for x in have if base_rename is not None and root_of(x) == p.base_var)}))
         allowed = spelled | {ren(n) for n in must.get(sec, [])} | {ren(n) for n in w["extra"].get(sec, [])} \
-            | {ren(n) for n in w["res_extra"].get(sec, [])} | {ren(n) for n in derived.get(sec, ())}
+            | {ren(n) for n in w["res_extra"].get(sec, [])} | {ren(n) for n in derived.get(sec, ())} | (own if sec == "gets" else set())
         for n in sorted(have):
-            if root_of(n) == Bn and n not in allowed:
+            if root_of(n) == root and n not in allowed:
                 out.append(("undocumented-name", {"section": sec, "got": n, "documented": sorted(allowed)}))
     if base_rename is None:
         have = set(ent.get("calls", []))
@@ -621,6 +668,25 @@ def judge_doc(p, ent, base_rename=None):
         for n in sorted(have):
             if root_of(n) == Bn and strip_call(n) not in call_names:
                 out.append(("undocumented-name", {"section": "calls", "got": n, "documented": sorted(call_names)}))
+    return out
+
+
+def _own_prefixes(spelling):
+    """`s2.rows` -> s2, s2.rows ; `s2[]` -> s2, s2[] (what a caller records for its own argument expression)."""
+    out, cur, j = [], "", 0
+    while j < len(spelling):
+        if spelling[j] == "." and cur:
+            out.append(cur)
+        if spelling.startswith(("[]", "()"), j):
+            if cur and cur not in out:
+                out.append(cur)
+            cur += spelling[j:j + 2]
+            j += 2
+            continue
+        cur += spelling[j]
+        j += 1
+    if cur not in out:
+        out.append(cur)
     return out
 
 
@@ -647,15 +713,21 @@ class Recorder:
         for s in sites:
             self.by_file.setdefault(s["file"], []).append(s)
         self.hits = {}
+        self._rel = {}
         self.slot = None
         self._patches = []
         self.root = str(Path(sys.modules["rattr"].__file__).resolve().parent.parent)
 
     def _record(self, callee, frame, args, kwargs):
         fn = frame.f_code.co_filename
-        try:
-            rel = str(Path(fn).resolve().relative_to(self.root))
-        except ValueError:
+        rel = self._rel.get(fn, False)
+        if rel is False:
+            try:
+                rel = str(Path(fn).resolve().relative_to(self.root))
+            except ValueError:
+                rel = None
+            self._rel[fn] = rel
+        if rel is None or rel not in self.by_file:
             return
         line = frame.f_lineno
         node = None
@@ -833,13 +905,52 @@ def inproc(project, target, rec, slot_label):
     return r
 
 
-def wrappers_source(probes, style):
-    lines = ["import lib" if style == "module" else "from lib import " + ", ".join(p.name for p in probes), "", ""]
+# how a caller hands the probe's variable over: (prefix of the caller's name, argument source, its
+# documented spelling, by keyword?)
+ARG_STYLES = [
+    ("w", "s2", "s2", False),              # a renamed variable
+    ("v", "s2.rows", "s2.rows", False),    # a compound argument: the callee's names are built on its spelling
+    ("u", "s2[0]", "s2[]", False),
+    ("k", "s2", "s2", True),               # the same by keyword (all four parameters by name, reordered)
+]
+
+
+def caller_src(p, style, callee):
+    tag, argsrc, _, by_kw = style
     params = ", ".join(RENAMED[x.strip()] for x in FN_PARAMS.split(","))
+    if by_kw:
+        names = [x.strip() for x in FN_PARAMS.split(",")]
+        rest = ", ".join(f"{x}={RENAMED[x]}" for x in names[1:])
+        call = f"{callee}({rest}, {names[0]}={argsrc})"
+    else:
+        rest = ", ".join(RENAMED[x.strip()] for x in FN_PARAMS.split(",")[1:])
+        call = f"{callee}({argsrc}, {rest})"
+    return f"def {tag}_{p.name}({params}):\n    return {call}\n"
+
+
+def wrappers_source(probes, style, arg_styles=None):
+    """Callers of the probes: `style` = "module" / "from" (the probes live in the followed import
+    `lib`) or "same" (the callers are appended to the probes' own file)."""
+    arg_styles = ARG_STYLES[:1] if arg_styles is None else arg_styles
+    lines = {"module": ["import lib", "", ""], "from": ["from lib import " + ", ".join(p.name for p in probes), "", ""], "same": []}[style]
     for p in probes:
         callee = f"lib.{p.name}" if style == "module" else p.name
-        lines += [f"def w_{p.name}({params}):", f"    return {callee}({params})", "", ""]
+        for st in arg_styles:
+            lines += [caller_src(p, st, callee), ""]
     return "\n".join(lines)
+
+
+def judge_callers(p, doc, arg_styles):
+    """-> [(kind, detail, style tag, caller source)] for every caller of probe `p` in `doc`."""
+    out = []
+    for st in arg_styles:
+        ent = doc.get(f"{st[0]}_{p.name}")
+        if ent is None:
+            vs = [("function-not-reported", {"function": f"{st[0]}_{p.name}"})]
+        else:
+            vs = judge_doc(p, ent, base_rename=st[2])
+        out.append((st, ent, vs))
+    return out
 
 
 # ------------------------------------------------------------------ the stage
@@ -851,6 +962,9 @@ def signature(channel, slot_id, kind):
     deviation is per channel and slot."""
     if kind == "missing-documented-name:call-on-call":
         return f"site:{channel}:call-record:call-on-call-brackets-collapsed"
+    if kind.endswith(":keeps-brackets:xattr-full"):
+        # correct on the pinned tree for every member of the family: per member (= slot)
+        return f"site:{channel}:{slot_id}:{kind}"
     if ":keeps-brackets:" in kind or kind.endswith(":unbound-name-basename-is-argument-spelling"):
         return f"site:{channel}:{kind}"
     return f"site:{channel}:{slot_id}:{kind}"
@@ -873,7 +987,18 @@ def load_table(model, res):
     return mo["sites"]
 
 
+_T = []
+
+
+def _tick(label):
+    import time
+    _T.append((label, time.time()))
+    if os.environ.get("C10_TIMING") and len(_T) > 1:
+        print(f"[timing] {label}: {_T[-1][1] - _T[-2][1]:.1f}s", file=sys.stderr)
+
+
 def run_stage(res, tier, rng, model):
+    _tick("start")
     repo_root = Path(sys.modules["rattr"].__file__).resolve().parent.parent
     sites = c10scan.scan(repo_root)
     table = load_table(model, res)
@@ -890,6 +1015,7 @@ def run_stage(res, tier, rng, model):
 
     rec = Recorder(sites)
     seen_sig = set()
+    _tick("generate+spec")
 
     def add(v):
         res.violations.append(v)
@@ -917,10 +1043,11 @@ def run_stage(res, tier, rng, model):
                 res.count("site:ir:verdict:" + kind)
                 add(violation("ir", p, kind, detail, extra={"module_header": HEADER}))
 
+        _tick("ir")
         # ---------------- channel results: one file with every probe, in-process and through the CLI
         project = Path(tempfile.mkdtemp(prefix="rattr-c10sites-"))
         try:
-            src = module_source(fn_probes + mod_probes)
+            src = module_source(fn_probes + mod_probes) + "\n\n" + wrappers_source(fn_probes, "same", ARG_STYLES)
             (project / "target.py").write_text(src)
             ip = inproc(project, "target.py", rec, "results:batch")
             # module-level slot families once more, one file per family: which family reaches which site
@@ -936,7 +1063,9 @@ def run_stage(res, tier, rng, model):
                             res.disagreements.append({"case": {"stage": "sites", "channel": "results", "slot": sid, "source": p.src_fn},
                                                       "diff": "the entry of a probe differs between the batch file and its family's file"})
             rec_done = True
+            _tick("inproc batch + families")
             cl = cli(project, "target.py")
+            _tick("cli target")
             res.count("site:results:inproc:" + ip["outcome"])
             res.count("site:results:cli:exit:" + str(cl["exit"]))
             docs = []
@@ -979,37 +1108,48 @@ def run_stage(res, tier, rng, model):
                         res.count("site:results:verdict:" + kind)
                         add(violation("results", p, kind, detail, extra={"module_header": HEADER, "entry": ent}))
 
+            # ---------------- channel results-caller: every probe called from another function of the SAME file
+            # (the callers are part of target.py: in-process pipeline and CLI, which printed the same document)
+            def judge_channel(channel, ps, doc, arg_styles, extra):
+                for p in ps:
+                    for st, ent, vs in judge_callers(p, doc, arg_styles):
+                        res.evaluations += 1
+                        res.nontrivial.add(common.digest([channel, extra.get("import_style", ""), st[0], p.slot.id, p.expr]))
+                        res.count(f"site:{channel}:arg:{st[1]}{'(keyword)' if st[3] else ''}")
+                        if not vs:
+                            res.count(f"site:{channel}:verdict:holds")
+                            if p.slot.id in XATTR_SLOTS and first_component_bracketed(p):
+                                res.count(f"site:{channel}:xattr-bracketed-object-substituted:{p.slot.id}")
+                        for kind, detail in vs:
+                            res.count(f"site:{channel}:verdict:" + kind)
+                            callee = ("lib." if extra.get("import_style") == "module" else "") + p.name
+                            add(violation(channel, p, kind, detail,
+                                          extra={"module_header": HEADER, **extra, "entry": ent, "arg_style": st[0],
+                                                 "caller_argument": st[1], "wrapper": caller_src(p, st, callee)}))
+
+            _tick("judge results")
+            if docs:
+                judge_channel("results-caller", fn_probes, docs[-1][1], ARG_STYLES, {})
+            _tick("judge callers")
+
             # ---------------- channel results-import: the probes live in a followed import
             (project / "lib.py").write_text(module_source(fn_probes))
             half = len(fn_probes) // 2
             for style, ps, fname in (("module", fn_probes[:half], "t_mod.py"), ("from", fn_probes[half:], "t_from.py")):
-                (project / fname).write_text(wrappers_source(ps, style))
+                (project / fname).write_text(wrappers_source(ps, style, ARG_STYLES))
                 cl = cli(project, fname, extra=("-f", "1"))
                 res.count(f"site:results-import:{style}:cli:exit:" + str(cl["exit"]))
                 if cl["exit"] != 0 or cl.get("doc") is None:
                     res.violations.append({"signature": f"site:results-import:batch:outcome:exit-{cl['exit']}",
                                            "case": {"stage": "sites", "channel": "results-import", "style": style,
-                                                    "lib": module_source(ps), "target": wrappers_source(ps, style)},
+                                                    "lib": module_source(ps), "target": wrappers_source(ps, style, ARG_STYLES)},
                                            "detail": cl["stderr"]})
                     continue
-                for p in ps:
-                    res.evaluations += 1
-                    res.nontrivial.add(common.digest(["site-import", style, p.slot.id, p.expr]))
-                    ent = cl["doc"].get("w_" + p.name)
-                    if ent is None:
-                        vs = [("function-not-reported", {"function": "w_" + p.name})]
-                    else:
-                        vs = judge_doc(p, ent, base_rename=RENAMED["shape"])
-                    if not vs:
-                        res.count("site:results-import:verdict:holds")
-                    for kind, detail in vs:
-                        res.count("site:results-import:verdict:" + kind)
-                        add(violation("results-import", p, kind, detail,
-                                      extra={"module_header": HEADER, "import_style": style, "entry": ent,
-                                             "wrapper": f"def w_{p.name}(s2, a2, i2, p2): return {p.name}(s2, a2, i2, p2)"}))
+                judge_channel("results-import", ps, cl["doc"], ARG_STYLES, {"import_style": style})
         finally:
             shutil.rmtree(project, ignore_errors=True)
 
+    _tick("import channel")
     # ---------------- coverage of the consumer sites
     report = []
     for s in sites:
@@ -1107,6 +1247,27 @@ def replay_case(case):
             out["results"] = cl["doc"].get(p.name)
             out["document_keys_rooted_at_base"] = sorted(k for k in cl["doc"] if root_of(k) == p.B)
             out["results_verdict"] = [k for k, _ in judge_doc(p, cl["doc"].get(p.name) or {})]
+        # the probe called from another analysed function (channels results-caller / results-import)
+        st = next((x for x in ARG_STYLES if x[0] == case.get("arg_style")), None)
+        if slot.level == "fn" and (st is not None or case.get("channel") in ("results-caller", "results-import")):
+            styles = [st] if st is not None else ARG_STYLES
+            istyle = case.get("import_style")
+            if case.get("channel") == "results-import" and istyle in ("module", "from"):
+                (project / "lib.py").write_text(module_source(ps))
+                (project / "t.py").write_text(wrappers_source(ps, istyle, styles))
+                cl = cli(project, "t.py", extra=("-f", "1"))
+                out["caller_files"] = {"lib.py": "<header> + " + p.src_fn, "t.py": wrappers_source(ps, istyle, styles)}
+            else:
+                (project / "t.py").write_text(module_source(ps) + "\n\n" + wrappers_source(ps, "same", styles))
+                cl = cli(project, "t.py")
+                out["caller_files"] = {"t.py": "<header> + " + p.src_fn + "\n\n" + wrappers_source(ps, "same", styles)}
+            out["caller_cli_exit"] = cl["exit"]
+            if cl.get("doc"):
+                out["callers"] = {}
+                for x, ent, vs in judge_callers(p, cl["doc"], styles):
+                    out["callers"][f"{x[0]}_{p.name}"] = {"argument": x[1] + (" (by keyword)" if x[3] else ""), "entry": ent,
+                                                         "documented_base": _rename(p.B, p.base_var, x[2]),
+                                                         "verdict": [[k, d.get("want") or d.get("got")] for k, d in vs]}
     finally:
         shutil.rmtree(project, ignore_errors=True)
     print(json.dumps(out, indent=1))
